@@ -106,8 +106,10 @@ class PaneBase:
         if opts.frozen:
             raise FrozenInstanceError(f"cannot assign to field {name!r}")
         super().__setattr__(name, value)
-        set_fields: t.Set[str] = getattr(self, PANE_SET_FIELDS)
-        set_fields.add(name)
+        if any(field.name == name for field in self.__pane_info__.fields):
+            # (only fields are recorded: other attributes are no part of the value)
+            set_fields: t.Set[str] = getattr(self, PANE_SET_FIELDS)
+            set_fields.add(name)
 
     def __delattr__(self, name: str) -> None:
         raise AttributeError(f"cannot delete field {name!r}")
@@ -129,7 +131,7 @@ class PaneBase:
         set_fields = getattr(self, PANE_SET_FIELDS)
         d = {
             field.name: getattr(self, field.name)
-            for field in self.__pane_info__.fields if field.name in set_fields
+            for field in self.__pane_info__.fields if field.init and field.name in set_fields
         }
         d.update(**changes)
         return self.__class__(**d)
